@@ -19,10 +19,17 @@ NOr(a, b) == a | b
 NXor(a, b) == a ^^ b
 NPow2(k) == 2 ^ k
 NShr(a, k) == a \div (2 ^ k)            \* TLC's \div floors, as required
+(* scaled significand precisions, in the same relation to the integer widths as the real ones:
+   float cannot hold every int (24 < 32), double holds every int but not every long (32 <= 53 < 64),
+   long double holds every long (64) *)
+NBitLen(m) == CHOOSE k \in 0..62 : m < 2 ^ k /\ (k = 0 \/ m >= 2 ^ (k - 1))
+PFlt == WInt - 1
+PDbl == WLong - 1
+PLdbl == WLong
 
 INSTANCE CInt WITH ZI <- NId, ZAdd <- NAdd, ZSub <- NSub, ZMul <- NMul, ZDivT <- NDivT, ZModT <- NModT,
                    ZLt <- NLt, ZAndW <- NAnd, ZOrW <- NOr, ZXorW <- NXor, ZPow2 <- NPow2, ZShr <- NShr,
-                   ZWrap <- NWrap, ZToInt <- NId
+                   ZWrap <- NWrap, ZToInt <- NId, ZBitLen <- NBitLen
 
 Vals(t) == MinV(t)..MaxV(t)
 =============================================================================
